@@ -619,6 +619,15 @@ class BuiltinMixin:
         it = self.force(self.eval(gen.iter))
         items = self.concrete_items(it)
         fr = self.frame
+        if fn is sum and it.kind.is_set and not gen.ifs and isinstance(gen.target, ast.Name) \
+                and isinstance(comp.elt, ast.Subscript) and isinstance(comp.elt.slice, ast.Name) \
+                and comp.elt.slice.id == gen.target.id:
+            cv = self.force(self.eval(comp.elt.value))
+            if cv.kind.name == 'counter':
+                # sum(counter[m] for m in set): the canonical set-sum (same term as sumover)
+                call = ast.Call(func=ast.Name(id='sumover', ctx=ast.Load()),
+                                args=[gen.iter, comp.elt.value], keywords=[])
+                return self.spec_call('sumover', ast.copy_location(call, node))
         if items is not None:
             vals = []
             saved = dict(fr.locals)
